@@ -5,6 +5,9 @@ import (
 	"time"
 )
 
+// maxMatrixPoints bounds the per-series value buffer of FixPeriodPlanner ((end-start)/step+1 float64 values).
+const maxMatrixPoints = 10000000
+
 type FixPeriodPlanner struct {
 	Main     shared.RequestProcessor
 	Duration time.Duration
@@ -17,6 +20,19 @@ func (m *FixPeriodPlanner) Process(ctx *shared.PlannerContext,
 	in chan []shared.LogEntry) (chan []shared.LogEntry, error) {
 	_from := ctx.From.UnixNano()
 	_to := ctx.To.UnixNano()
+	if ctx.Step <= 0 {
+		return nil, &shared.NotSupportedError{Msg: "step must be a positive duration"}
+	}
+	if m.Duration <= 0 {
+		return nil, &shared.NotSupportedError{Msg: "range must be a positive duration"}
+	}
+	if _to < _from {
+		return nil, &shared.NotSupportedError{Msg: "end timestamp must not be before start time"}
+	}
+	if (_to-_from)/ctx.Step.Nanoseconds() >= maxMatrixPoints {
+		return nil, &shared.NotSupportedError{
+			Msg: "exceeded maximum resolution of points per timeseries. Try decreasing the query resolution (?step=XX)"}
+	}
 	ctx.From = ctx.From.Truncate(m.Duration)
 	ctx.To = ctx.To.Truncate(m.Duration).Add(m.Duration)
 
@@ -55,6 +71,7 @@ func (m *FixPeriodPlanner) Process(ctx *shared.PlannerContext,
 
 	go func() {
 		defer close(res)
+		defer shared.TamePanic(res)
 		first := true
 		for entries := range _in {
 			for _, entry := range entries {
